@@ -39,7 +39,8 @@ SEP = [', ', '; ', '\n', ' ', ', \n\n', ';\n', '\r\n', ',  ', '\t', ' \n', '\r']
 COLON = [': ', ' : ', ':\n', ' :\n', ':']
 DIRS = [('N', 'W'), ('S', 'E'), ('N', 'E'), ('S', 'W')]
 # (twp, rge) replacing the structure's own numbers, per Twp/Rge group position
-NUMS = [None, [(7, 9), (15, 1)], [(1, 102), (154, 9)], [(15, 2), (7, 97)]]
+NUMS = [None, [(7, 9), (15, 1)], [(1, 102), (154, 9)], [(15, 2), (7, 97)],
+        [(154, 97), (154, 96), (153, 96)]]      # neighbouring groups that share the township, then the range
 # section-number maps applied to the structure's section numbers
 SECNUMS = [None, {14: 1, 15: 2, 16: 3, 17: 4, 1: 5, 2: 6, 5: 7, 6: 8, 36: 9, 3: 10},
            {14: 9, 15: 10, 16: 11, 17: 12, 1: 35, 2: 36, 5: 3, 6: 4, 36: 1, 3: 5}]
